@@ -1,6 +1,118 @@
-(* C20 -- placeholder until Proofs/NaturalKey.v lands *)
-From Tola Require Import Py.Base Model.NaturalKey.
+(* C20 -- Scaffold ordering is total, numeric-aware and never fails.
+   Only statements, each closed by [exact] of a lemma from Proofs/NaturalKey.v. *)
+From Tola Require Import Py.Base Py.Dec Py.Sort Model.NaturalKey Proofs.NaturalKey.
+From Coq Require Import Permutation Sorted.
 
-Lemma C20_legacy_refuted : natural_key_legacy (s "IIII") = Err ValueError.
-Proof. vm_compute. reflexivity. Qed.
+(* the sort key exists for every name (never an exception) ... *)
+Theorem C20_key_total : forall x, exists k, natural_key x = Ok k.
+Proof. exact natural_key_total. Qed.
+Print Assumptions C20_key_total.
+
+(* ... and is text, number, text, ..., text, so that comparing two keys never
+   compares a text with a number (no TypeError from sort) *)
+Theorem C20_key_shape : forall x k, natural_key x = Ok k -> alternating true k.
+Proof. exact natural_key_shape. Qed.
+Print Assumptions C20_key_shape.
+
+Theorem C20_no_mixed_comparison : forall a b, alternating true a -> alternating true b ->
+  forall i x y, nth_error a i = Some x -> nth_error b i = Some y ->
+  (exists u v, x = KS u /\ y = KS v) \/ (exists n m, x = KI n /\ y = KI m).
+Proof. exact alternating_no_mixed. Qed.
+Print Assumptions C20_no_mixed_comparison.
+
+(* sorting by name and the rank-then-name sort succeed on every list and
+   return a permutation of it *)
+Theorem C20_sorted_by_name_total : forall (A : Type) (name_of : A -> str) (l : list A),
+  exists r, sorted_by_name name_of l = Ok r /\ Permutation r l.
+Proof. exact @sorted_by_name_total. Qed.
+Print Assumptions C20_sorted_by_name_total.
+
+Theorem C20_smart_sort_total : forall (A : Type) (rank_of : A -> Z) (name_of : A -> str) (l : list A),
+  exists r, smart_sort rank_of name_of l = Ok r /\ Permutation r l.
+Proof. exact @smart_sort_total. Qed.
+Print Assumptions C20_smart_sort_total.
+
+(* the key order is a total order on keys *)
+Theorem C20_key_le_trans : forall a b c, key_le a b = true -> key_le b c = true -> key_le a c = true.
+Proof. exact key_le_trans. Qed.
+Print Assumptions C20_key_le_trans.
+Theorem C20_key_le_total : forall a b, key_le a b = true \/ key_le b a = true.
+Proof. exact key_le_total. Qed.
+Print Assumptions C20_key_le_total.
+Theorem C20_key_le_antisym : forall a b, key_le a b = true -> key_le b a = true -> a = b.
+Proof. exact key_le_antisym. Qed.
+Print Assumptions C20_key_le_antisym.
+
+(* consistency: the same multiset of names always comes out with the same
+   sequence of keys, whatever the initial order; the output is sorted; names
+   with equal keys keep their input order *)
+Theorem C20_sort_consistent : forall (A : Type) (l l' : list (list kelt * A)),
+  Permutation l l' ->
+  map fst (stable_sort (fun a b => key_le (fst a) (fst b)) l)
+  = map fst (stable_sort (fun a b => key_le (fst a) (fst b)) l').
+Proof. exact sort_consistent. Qed.
+Print Assumptions C20_sort_consistent.
+
+Theorem C20_sort_sorted : forall (A : Type) (l : list (list kelt * A)),
+  StronglySorted (fun a b => key_le (fst a) (fst b) = true)
+    (stable_sort (fun a b => key_le (fst a) (fst b)) l).
+Proof. exact sort_sorted. Qed.
+Print Assumptions C20_sort_sorted.
+
+(* rank takes precedence over name: the smart sort is consistent and sorted
+   with respect to (rank, key) *)
+Theorem C20_smart_sort_consistent : forall (A : Type) (rank_of : A -> Z) (l l' : list (list kelt * A)),
+  Permutation l l' ->
+  map (rk rank_of) (stable_sort (fun a b => rank_key_le (rank_of (snd a), fst a) (rank_of (snd b), fst b)) l)
+  = map (rk rank_of) (stable_sort (fun a b => rank_key_le (rank_of (snd a), fst a) (rank_of (snd b), fst b)) l').
+Proof. exact @smart_sort_consistent. Qed.
+Print Assumptions C20_smart_sort_consistent.
+
+(* embedded decimal numbers compare by value: SUPER_2 before SUPER_10 *)
+Theorem C20_numeric_order : forall p n m, clean p -> 0 <= n < m ->
+  exists kn km, natural_key (p ++ str_of_Z n) = Ok kn /\ natural_key (p ++ str_of_Z m) = Ok km
+    /\ key_cmp kn km = Lt.
+Proof. exact numeric_order. Qed.
+Print Assumptions C20_numeric_order.
+
+(* the nematode numerals compare by value *)
+Theorem C20_roman_order :
+  natural_key (s "I") = Ok [KS []; KI 1; KS []] /\
+  natural_key (s "II") = Ok [KS []; KI 2; KS []] /\
+  natural_key (s "III") = Ok [KS []; KI 3; KS []] /\
+  natural_key (s "IV") = Ok [KS []; KI 4; KS []] /\
+  key_cmp [KS []; KI 1; KS []] [KS []; KI 2; KS []] = Lt /\
+  key_cmp [KS []; KI 2; KS []] [KS []; KI 3; KS []] = Lt /\
+  key_cmp [KS []; KI 3; KS []] [KS []; KI 4; KS []] = Lt.
+Proof. exact roman_order. Qed.
+Print Assumptions C20_roman_order.
+
+(* an unloc sorts directly after its own chromosome and before the next one *)
+Theorem C20_unloc_between : forall p n n' sfx m,
+  clean p -> clean sfx -> 0 <= n < n' -> 0 <= m ->
+  exists kc ku kn, natural_key (p ++ str_of_Z n ++ sfx) = Ok kc
+    /\ natural_key (p ++ str_of_Z n ++ sfx ++ s "_unloc_" ++ str_of_Z m) = Ok ku
+    /\ natural_key (p ++ str_of_Z n') = Ok kn /\ key_cmp kc ku = Lt /\ key_cmp ku kn = Lt.
+Proof. exact unloc_between. Qed.
+Print Assumptions C20_unloc_between.
+
+Theorem C20_unloc_before_later_suffix : forall p n a b m,
+  clean p -> clean [a] -> clean [b] -> (code a < code b)%N -> 0 <= n -> 0 <= m ->
+  exists ku kb, natural_key (p ++ str_of_Z n ++ [a] ++ s "_unloc_" ++ str_of_Z m) = Ok ku
+    /\ natural_key (p ++ str_of_Z n ++ [b]) = Ok kb /\ key_cmp ku kb = Lt.
+Proof. exact unloc_before_later_suffix. Qed.
+Print Assumptions C20_unloc_before_later_suffix.
+
+(* the repair changed no key the pinned commit could compute, and the pinned
+   commit's key fails on IIII *)
+Theorem C20_new_key_extends_old : forall x k, natural_key_legacy x = Ok k -> natural_key x = Ok k.
+Proof. exact new_key_extends_old. Qed.
+Print Assumptions C20_new_key_extends_old.
+
+Theorem C20_legacy_refuted : natural_key_legacy (s "IIII") = Err ValueError.
+Proof. exact natural_key_legacy_refuted. Qed.
 Print Assumptions C20_legacy_refuted.
+
+(* non-vacuity of [clean]: the prefixes the tool generates are clean *)
+Example C20_clean_examples : clean (s "SUPER_") /\ clean (s "_unloc_") /\ clean (s "A") /\ clean (s "chr").
+Proof. vm_compute. repeat split. Qed.
